@@ -138,6 +138,10 @@ type VC struct {
 	strLits       map[string]Term
 	defs          map[string]Term
 	pureApps      []PureApp
+	recording     map[string]string // heap var name -> sort, while recording accesses
+	opaqueSig     map[string][]string
+	opaqueSorts   map[string]string
+	revealAll     bool
 	pruneTerminal bool
 	skipBlocks    map[*ast.BlockStmt]bool
 }
@@ -536,6 +540,9 @@ func (st *State) assume(t Term) { st.pc = st.pc.push(t) }
 
 // heap returns the current term of heap variable `name` (entry constant if untouched).
 func (vc *VC) heap(st *State, name, sort string) Term {
+	if vc.recording != nil {
+		vc.recording[name] = sort
+	}
 	if t, ok := st.heaps[name]; ok {
 		return t
 	}
